@@ -222,6 +222,7 @@ int32_t jls_wr_signal_def(struct jls_wr_s * self, const struct jls_signal_def_s 
     ROE(jls_buf_string_save(buf, signal->units, (char **) &def->units));
     ROE(jls_core_signal_def_validate(def));
     ROE(jls_core_signal_def_align(def));
+    ROE(jls_core_signal_def_validate(def));  // the reader validates the aligned values that get stored
 
     switch (def->signal_type) {
         case JLS_SIGNAL_TYPE_FSR:
